@@ -403,7 +403,7 @@ func TestC16(t *testing.T) {
 	// Part 3: plain View and Prependable
 	viewAndPrependable(run)
 
-	code := run.Finish("exhaustive: every chunking (incl. empty chunks, <= maxChunks) of contents up to exhaustive_max_content_len, every op sequence up to exhaustive_max_ops over {TrimFront k, CapLength k (k=-1..size+2), RemoveFirst, Clone(nil), Clone(buf)} applied to the original or any clone, all live objects compared with their reference byte strings after every op; random: contents <= 70000 bytes in <= 12 chunks, <= 64 ops; View: every (len, k); Prependable: every size 0..128 x prepend sequences. distinct = distinct (chunking, op-sequence) for the exhaustive part, shape classes for the random part",
+	code := run.Finish("exhaustive: every chunking (incl. empty chunks, <= maxChunks) of contents up to exhaustive_max_content_len, every op sequence up to exhaustive_max_ops over {TrimFront k, CapLength k (k=-1..size+2), RemoveFirst, Clone(nil), Clone(buf)} applied to the original or any clone, all live objects compared with their reference byte strings after every op; random: contents <= 70000 bytes in <= 12 chunks, <= 64 ops; View: every (len, k); Prependable: every size 0..128 x prepend sequences. distinct = distinct (chunking, op-sequence) for the exhaustive part, shape classes for the random part Later additions: The reference keeps the chunk list: RemoveFirst removes exactly one chunk, also an empty one.",
 		[]string{"View.CapLength(k) with k beyond the current length is outside byte-string semantics (slicing a string beyond its end is undefined/panics); such calls are counted but not judged", "reference model: a plain []byte per live object (h/c16)"})
 	os.Exit(code)
 }
